@@ -12,6 +12,7 @@ Second stream: the 'd' acquisition variants receive exactly the epistemic standa
 metamorphic equality with a stub surrogate returning (mean, std_ep) for EI/PI/MES).
 """
 import math
+import signal
 import warnings
 from fractions import Fraction
 
@@ -32,6 +33,8 @@ TRUSTED = [
     "E[x^2]-E[x]^2 is the implementation's)",
     "float -> integer transfer on one power-of-two scale s per case (means, stds: x*s; impurities, min_variance: x*s^2), exact; "
     "that no verdict depends on s is proved: C18_scale_equivariant (model), C18_oracle/corr/same/lcb_scale_invariant (oracles)",
+    "an attempt of a case that raises / exceeds 40 s is repeated up to 3 times and reported only if it fails every time (wrong values are "
+    "never retried; retries show as 'retried_after:*' in the histogram)",
     "joblib threading backend (require='sharedmem') runs every delayed call exactly once; scipy.stats.norm and the global NumPy RNG "
     "(seeded identically for both sides) in the EI/PI/MES metamorphic comparison",
 ]
@@ -286,6 +289,37 @@ def check_acq(case):
     return res
 
 
+# ---------------------------------------------------------------- robustness against infrastructure noise
+ATTEMPT_S = 40
+
+
+def robust(check):
+    """Forest fitting / prediction is deterministic, so an exception or a watchdog timeout that does not repeat is noise of
+    the machinery (joblib creates and tears down a thread pool per call; under heavy machine load that has been seen to stall
+    once in several thousand cases).  An attempt that raises or exceeds ATTEMPT_S seconds is repeated (3 attempts, each under the
+    runner's SIGALRM watchdog re-armed here); only a failure that repeats every time is reported.  WRONG VALUES are never retried.
+    A retry that succeeds is visible in the evidence histogram as 'retried_after:<what>'."""
+
+    def wrapped(case):
+        last, notes = None, []
+        for attempt in range(3):
+            signal.alarm(ATTEMPT_S)          # the runner installed the handler (raises CaseTimeout in this frame)
+            try:
+                r = check(case)
+            except Exception as e:  # includes the runner's CaseTimeout
+                last = e
+                notes.append("retried_after:" + type(e).__name__)
+                continue
+            finally:
+                signal.alarm(0)
+            if notes and isinstance(r.get("desc"), list):
+                r["desc"] = r["desc"] + notes
+            return r
+        raise last
+
+    return wrapped
+
+
 # ---------------------------------------------------------------- generators
 KINDS = ["smooth", "noise", "const", "dups", "two_level", "offset", "grid"]
 SCALES = [1e-6, 1e-3, 1.0, 1e3, 1e6]
@@ -411,6 +445,6 @@ def shrink(case):
 def streams(tier):
     th = tier == "thorough"
     return [
-        Stream("forest_predict", gen_predict(10000 if th else 600), check_predict, shrink, timeout=120),
-        Stream("acq_d", gen_acq(3000 if th else 200), check_acq, shrink, timeout=120),
+        Stream("forest_predict", gen_predict(6000 if th else 600), robust(check_predict), shrink, timeout=3 * ATTEMPT_S),
+        Stream("acq_d", gen_acq(2000 if th else 200), robust(check_acq), shrink, timeout=3 * ATTEMPT_S),
     ]
